@@ -82,3 +82,30 @@ site(M + ':reevaluate', 'post', ordinal=1, asserts=[
     '        extra[j] == grouped[name][count + j]), "Int"))',
     'policy == "fifo" or policy == "lifo"',
 ])
+
+
+# ---------------------------------------------------------------- the watch handler that installs a monitor record
+# (closure of _run_sync / _watch_monitor: `state` and `name` are its free variables).  reevaluate *requires* mon_valid of
+# every record; this is who establishes it.
+record('LoadedMon', {'count': 'Int', 'policy': 'Opt[Name]', 'has_policy': 'Bool', 'has_count': 'Bool'})
+cls('ZnodeStat', None, {})
+cls('WatchedEvent', None, {'type': 'Name'})
+contract('lib:yaml.load', types={'$params': ['data'], 'data': 'Any', 'return': 'LoadedMon'},
+         ensures=['implies(result["has_count"], result["count"] >= 0)'],
+         raises={'Exception': []}, assumed=True, modifies=['alloc'],
+         note='the monitor payload: a mapping whose count (if present) is a non-negative integer (API schema: minimum 0)')
+
+contract(M + ':_run_sync._monitor_data_watch',
+         types={'data': 'Any', 'stat': 'Opt[ZnodeStat]', 'event': 'Opt[WatchedEvent]', '^state': 'MonState', '^name': 'Name',
+                'loaded': 'LoadedMon', 'count': 'Int', 'policy': 'Opt[Name]'},
+         requires=['forall(lambda n: implies(n in state["monitors"], mon_valid(state["monitors"][n]) and '
+                   '       state["monitors"][n]["last_update"] <= clock_now()), "Name")'],
+         ensures=[# every record in the monitor state is valid afterwards: in particular a reconfigured monitor starts with
+                  # a bucket within [0, 2 * its new count]
+                  ('C20', 'forall(lambda n: implies(n in state["monitors"], mon_valid(state["monitors"][n]) and '
+                          '       state["monitors"][n]["last_update"] <= clock_now()), "Name")', 'installs_valid_record')],
+         modifies=['clock', 'alloc', ('MonState.monitors', 'lambda r: True'), ('MonRec.available', 'lambda r: True'),
+                   ('MonRec.last_update', 'lambda r: True'), ('MonRec.count', 'lambda r: True'),
+                   ('MonRec.rate', 'lambda r: True'), ('MonRec.policy', 'lambda r: True'),
+                   ('MonRec.has_policy', 'lambda r: True')],
+         props=['C20'])
